@@ -65,6 +65,15 @@ func N(quick, thorough int) int {
 }
 
 func Shard() int { return envInt("VERIF_SHARD", 0) }
+
+// fileShard keeps the files of the race-detector processes apart from those of the normal
+// processes, which use the same shard numbers.
+func fileShard() int {
+	if os.Getenv("VERIF_RACE") == "1" {
+		return 100 + Shard()
+	}
+	return Shard()
+}
 func Shards() int {
 	n := envInt("VERIF_SHARDS", 1)
 	if n < 1 {
@@ -266,7 +275,7 @@ func (r *Recorder) SaveViolation(c interface{}, detail string) string {
 	}
 	rf := replayFile{Property: r.Property, Check: r.Check, Detail: detail, Seed: Seed(), Shard: Shard(), Tier: Tier(), Case: cb}
 	b, _ := json.MarshalIndent(rf, "", " ")
-	path := filepath.Join(dir, fmt.Sprintf("%s-shard%d.json", r.Check, Shard()))
+	path := filepath.Join(dir, fmt.Sprintf("%s-shard%d.json", r.Check, fileShard()))
 	if os.Getenv("VERIF_REPLAY") != "" {
 		// replaying: do not overwrite the file being replayed
 		path = filepath.Join(dir, fmt.Sprintf("%s-replayed.json", r.Check))
@@ -314,11 +323,11 @@ func (r *Recorder) Flush() {
 		return
 	}
 	os.MkdirAll(dir, 0o755)
-	p := partial{Property: r.Property, Check: r.Check, Shard: Shard(), Rule: r.Rule, Exhaustive: r.Exhaustive,
+	p := partial{Property: r.Property, Check: r.Check, Shard: fileShard(), Rule: r.Rule, Exhaustive: r.Exhaustive,
 		Evaluations: r.evaluations, NontrivEnum: r.nontrivEnum, Hashes: len(r.hashes), Saturated: r.saturated,
 		Classes: r.classes, Samples: r.samples, Violations: r.violations, WallS: time.Since(r.start).Seconds(), Notes: r.Notes}
 	b, _ := json.MarshalIndent(p, "", " ")
-	base := filepath.Join(dir, fmt.Sprintf("%s.%s.%d", r.Property, r.Check, Shard()))
+	base := filepath.Join(dir, fmt.Sprintf("%s.%s.%d", r.Property, r.Check, fileShard()))
 	os.WriteFile(base+".json", b, 0o644)
 	hs := make([]uint64, 0, len(r.hashes))
 	for h := range r.hashes {
